@@ -83,55 +83,58 @@ def run(rep):
     py_super_dispatch(rep, 'R19.1', f, 'declarations.implementedBy',
                       shared.params(f)[0], '_implementedBy_super(cls)')
     u = cside.cu(rep)
-    # C providedBy
-    cf = u.func('providedBy')
-    g = ccfg(cf)
-    tests = [n for n in g.nodes if node_calls(n, 'PyObject_IsInstance')
-             and 'PySuper_Type' in show(n.e)]
-    ok = len(tests) == 1
-    detail = 'PyObject_IsInstance(ob, &PySuper_Type) sites: %d' % len(tests)
-    if ok:
-        t = tests[0]
-        probes = [n for n in g.nodes if n is not t and any(
-            c.a[0] in ('PyObject_GetAttr', 'PyObject_HasAttrString', 'PyObject_GetAttrString')
-            and is_var(c.a[1][0], 'ob') for c in node_calls(n))]
-        okdom = bool(probes) and all(g.dominated_by(p, lambda m: m is t) for p in probes)
-        var = list(__import__('zverif.cfront', fromlist=['c_assigned']).c_assigned(t))
-        route = [n for n in g.nodes if n.kind == 'test' and var and is_var(n.e, var[0])]
-        okroute = False
-        if route:
-            tn = [m for m, lab in route[-1].succ if lab == 'T']
-            okroute = bool(tn) and tn[0].e is not None and tn[0].e.k == 'return' and \
-                show(tn[0].e.a[0]) == 'implementedBy(module, ob)'
-            okdom = okdom and all(g.dominated_by(p, lambda m: m is route[-1]) for p in probes)
-        ok = okdom and okroute
-        detail = ('super test dominates the %d attribute probes on ob (%s) and '
-                  'routes to implementedBy(module, ob) (%s)'
-                  % (len(probes), okdom, okroute))
-    ccheck(rep, 'R19.1', 'providedBy', ok, detail, construct='super-first')
-    cf = u.func('implementedBy')
-    g = ccfg(cf)
-    tests = [n for n in g.nodes if n.kind == 'test' and
-             show(n.e) == 'PyObject_TypeCheck(cls, &PySuper_Type)']
-    ok = len(tests) == 1
-    detail = 'PyObject_TypeCheck(cls, &PySuper_Type) tests: %d' % len(tests)
-    if ok:
-        t = tests[0]
-        probes = [n for n in g.nodes if n is not t and n.e is not None and (
-            any(c.a[0] in ('PyObject_GetAttr', 'PyObject_GetItem', 'PyDict_GetItem')
-                for c in node_calls(n)) or
-            any(x.k == 'field' and x.a[1] == 'tp_dict' for x in n.e.walk()))]
-        okdom = bool(probes) and all(g.dominated_by(p, lambda m: m is t) for p in probes)
-        tn = [m for m, lab in t.succ if lab == 'T']
-        okroute = bool(tn) and tn[0].e is not None and tn[0].e.k == 'return' and \
-            show(tn[0].e.a[0]) == 'implementedByFallback(module, cls)'
-        ok = okdom and okroute
-        detail = ('super test dominates the %d dict/attribute probes (%s) and '
-                  'routes to the Python fallback (%s)' % (len(probes), okdom, okroute))
-        if not okdom:
-            detail = {'probe_before_super_test': [show(p.e)[:70] for p in probes
-                                                  if not g.dominated_by(p, lambda m: m is t)]}
-    ccheck(rep, 'R19.1', 'implementedBy', ok, detail, construct='super-first')
+    # C twins, over path summaries: a path on which the super test is true
+    # returns the remainder-of-MRO route and never probes the object; every
+    # probe of the object comes after the test and on its false side
+    import re
+    from . import csem
+    for fn, var, test, route, site in (
+            ('providedBy', 'ob', 'PyObject_IsInstance(ob, &PySuper_Type)',
+             'implementedBy(module, ob)', 'providedBy'),
+            ('implementedBy', 'cls', 'PyObject_TypeCheck(cls, &PySuper_Type)',
+             'implementedByFallback(module, cls)', 'implementedBy')):
+        probs = []
+        kinds = set()
+        tok = re.compile(r'(?<![A-Za-z0-9_>.])%s(?![A-Za-z0-9_])' % var)
+        nprobe = 0
+        for ps in csem.returning(csem.S(u, fn)):
+            t = ps.facts.get(test)
+            pos = [p for k, tr, p in ps.order if k == test]
+            calls = [i for i, e in enumerate(ps.events) if e.kind == 'call'
+                     and repr(e) == test]
+            first = calls[0] if calls else None
+            probes = [i for i, e in enumerate(ps.events)
+                      if tok.search(repr(e)) and repr(e) != test
+                      and not repr(e).startswith(('Py_INCREF', 'Py_DECREF', 'Py_XDECREF'))
+                      and repr(e) != route]
+            nprobe += len(probes)
+            if first is None:
+                if probes:
+                    probs.append('`%s` runs on a path without the super test'
+                                 % repr(ps.events[probes[0]])[:60])
+                continue
+            early = [i for i in probes if i < first]
+            if early:
+                probs.append('`%s` runs before the super test' % repr(ps.events[early[0]])[:60])
+            if t is None:
+                continue
+            kinds.add(t)
+            if t:
+                if csem.ret(ps) != route:
+                    probs.append('a super object returns `%s` (required %s)'
+                                 % (csem.ret(ps)[:50], route))
+                if probes:
+                    probs.append('a super object is probed: `%s`'
+                                 % repr(ps.events[probes[0]])[:60])
+        if kinds != {True, False}:
+            probs.append('outcomes of the super test seen: %s' % sorted(kinds))
+        if not nprobe:
+            probs.append('no probe of the object found (anchor lost)')
+        ccheck(rep, 'R19.1', site, not probs,
+               'the super test precedes every probe of `%s` (%d probe events) and a '
+               'super object is routed to %s without being probed' % (var, nprobe, route)
+               if not probs else {'problems': sorted(set(probs))[:3]},
+               construct='super-first')
 
     # ---- R19.2 -------------------------------------------------------------------
     f = find_def(mod, 'Implements.changed')
